@@ -214,12 +214,12 @@ impl Property for C03 {
         let mut cp = CfgParams::full();
         cp.force_fallback = false;
         let maxp = tier.pick(10, 40);
-        (world(dp, cp), vec(pieces(maxp), 1..=4), prop_oneof![1 => Just(0xffffu16), 2 => 0u16..1024, 1 => (0u16..256).prop_map(|x| x * 4 + 1)])
+        (world(dp, cp), vec(pieces_long(maxp), 1..=4), prop_oneof![1 => Just(0xffffu16), 2 => 0u16..1024, 1 => (0u16..256).prop_map(|x| x * 4 + 1)])
             .prop_map(|((dic, cfg), texts, subset)| Case { dic, cfg, texts, subset })
             .boxed()
     }
     fn cases_per_shard(&self, tier: Tier) -> u32 {
-        tier.pick(6000, 120000)
+        tier.pick(4000, 120000)
     }
     fn hang_is_violation(&self) -> bool {
         true
